@@ -136,6 +136,7 @@ def check_crate(fx, rep, crate, tag):
                       'the transport / leaves with Ok only through the "last received byte is NUL" test')
     rep.rule('R01.3', 'sentinel pairing: the sentinel NUL store at buffer[read cursor] lies on every path from a read-cursor '
                       'advance to the Ok exit; the reader decides "last frame" by comparing the byte after the terminator with 0')
+    rep.rule('R01.6', 'cursor reset pairing: the message cursor is set to 0 only on paths that also set the read cursor to 0 (buffer declared empty); the read loop\'s early return relies on it')
     rep.rule('R01.4', 'growth-when-full (len test + extend) lies between every read-cursor advance and the sentinel store, so '
                       'buffer[read cursor] exists')
     dec = [a for a in anchors if a['cursor_field']]
@@ -246,6 +247,25 @@ def check_crate(fx, rep, crate, tag):
         if not read_cursor:
             rep.bad('R01.2', '%s|read-arg|%s' % (fk, tag), C.where(body, rb), 'the buffer handed to ReadHalf::read is not buffer[read cursor..]')
             continue
+        # ---- R01.6 the message cursor is reset to 0 only together with the read cursor ("buffer empty"); the early return
+        # `message cursor > 0` relies on: message cursor == 0  =>  no complete frame is buffered
+        n6 = 0
+        for wb in crate.bodies:
+            if wb.in_test:
+                continue
+            zero_m = [(b, i, st) for b, i, st in C.field_stores(wb, RC, cursor) if st['rv']['k'] == 'use' and mir.op_is_const(st['rv']['op'], 0)]
+            if not zero_m:
+                continue
+            zero_r = [b for b, i, st in C.field_stores(wb, RC, read_cursor) if st['rv']['k'] == 'use' and mir.op_is_const(st['rv']['op'], 0)]
+            for b, i, st in zero_m:
+                n6 += 1
+                paired = any(wb.dominates(rb_, b) or wb.postdominates(rb_, b) or rb_ == b for rb_ in zero_r)
+                rep.check(paired, 'R01.6', '%s|cursor-reset-pairing|%d|%s' % (wb.path, n6, tag), C.where(wb, b, i),
+                          'the message cursor is reset together with the read cursor',
+                          'the message cursor is set to 0 while the read cursor is not reset on the same path: `message cursor == 0` then no longer means "no complete frame is buffered", '
+                          'and the next receive waits for the transport although complete frames are pending (or treats a partial frame as empty)')
+        if not n6:
+            rep.bad('R01.6', 'anchor|%s' % tag, '-', 'no reset of the message cursor found')
         # (a) guard on message cursor
         ok_a = False
         for sw in range(body.n):
